@@ -1,7 +1,7 @@
 (* SourceFacts_spec.v — facts of the source that the hand-written life-cycle model (Lifecycle.v) and the
    compilation model (ToFunction.v) take for granted, stated on the tables translator/facts.py reads off
    the code on every run (gen/Tables.v). *)
-From Coq Require Import List ZArith Bool.
+From Coq Require Import List ZArith Bool String.
 From SM.gen Require Import Tables.
 Import ListNotations.
 
@@ -30,3 +30,23 @@ Definition model_level_is_documented : Prop :=
    every other level - for EVERY integer level *)
 Definition parameters_separate_iff_level_le_0 : Prop :=
   forall c : Z, gen_level_parameters c = if (c <=? 0)%Z then 0 else 1.
+
+(* ---- Network.step as Blocks.network_step models it (C11, C01): every positivity option is off unless asked
+   for, and the step is: init_vars of every element (handed the three positive_init_* options, the engine, and the
+   initial conditions looked up BY THE ELEMENT OBJECT), then step of every origin (positive_next_queue), then step
+   of every link (positive_next_speed, positive_next_density) - each handed the engine and the extra parameters *)
+Local Open Scope string_scope.
+Definition options_default_off : Prop :=
+  List.length gen_option_defaults = 6 /\ forallb (fun x => negb (snd x)) gen_option_defaults = true.
+Definition step_phases_as_modelled : Prop :=
+  gen_step_phases =
+  [ ("elements", "init_vars", ["positive_init_density"; "positive_init_queue"; "positive_init_speed"], true, false, Some true);
+    ("origins", "step", ["positive_next_queue"], true, true, None);
+    ("links", "step", ["positive_next_density"; "positive_next_speed"], true, true, None) ].
+
+(* ---- Network.is_valid (C06): nine reporting sites, each immediately followed by the raise under `raises`,
+   no other raise, and the verdict is `not msgs` - so raising, an invalid verdict and a non-empty message list
+   coincide by construction *)
+Definition validation_reports_and_raises_together : Prop :=
+  List.length gen_valid_sites = 9 /\ forallb snd gen_valid_sites = true /\
+  gen_valid_verdict_is_not_msgs = true /\ gen_valid_raises_only_there = true.
